@@ -83,6 +83,62 @@ func H_C13_msg(t, w, hcap, ccap, chunk int) {
 	vReach("accepted")
 }
 
+// H_C13_params_chunk: as H_C13_params but the small-capacity list is parsed
+// with one symbolic cut (no end-of-input flag: the list ends at '?').
+func H_C13_params_chunk(t, w, pcap int) {
+	buf := vTpl(t, w)
+	var s, a URIParamsLst
+	var sb [3]URIParam
+	var ab [8]URIParam
+	s.Init(sb[:pcap])
+	a.Init(ab[:])
+	oa, _, ea := ParseAllURIParams(buf, 0, &a, POptTokURIParamF)
+	cut := 1 + vChoice(len(buf)-1)
+	os, _, es := ParseAllURIParams(buf[:cut], 0, &s, POptTokURIParamF)
+	if es == ErrHdrMoreBytes {
+		os, _, es = ParseAllURIParams(buf, os, &s, POptTokURIParamF)
+	} else if cut < len(buf) {
+		vReach("early")
+		return
+	}
+	vAssert("same-verdict", oa == os && ea == es)
+	if ea == ErrHdrOk || ea == ErrHdrEOH {
+		vAssert("same-count-and-types", a.N == s.N && a.Types == s.Types)
+		for i := 0; i < s.PNo(); i++ {
+			vAssert("stored-are-a-prefix", a.Params[i].T == s.Params[i].T && a.Params[i].Param.Name == s.Params[i].Param.Name && a.Params[i].Param.Val == s.Params[i].Param.Val)
+		}
+		vReach("list")
+	}
+	vReach("end")
+}
+
+func H_C13_hdrs_chunk(t, w, hcap int) {
+	buf := vTpl(t, w)
+	var s, a URIHdrsLst
+	var sb [3]URIHdr
+	var ab [8]URIHdr
+	s.Init(sb[:hcap])
+	a.Init(ab[:])
+	oa, _, ea := ParseAllURIHdrs(buf, 0, &a, POptTokURIHdrF)
+	cut := 1 + vChoice(len(buf)-1)
+	os, _, es := ParseAllURIHdrs(buf[:cut], 0, &s, POptTokURIHdrF)
+	if es == ErrHdrMoreBytes {
+		os, _, es = ParseAllURIHdrs(buf, os, &s, POptTokURIHdrF)
+	} else if cut < len(buf) {
+		vReach("early")
+		return
+	}
+	vAssert("same-verdict", oa == os && ea == es)
+	if ea == ErrHdrOk || ea == ErrHdrEOH {
+		vAssert("same-count", a.N == s.N)
+		for i := 0; i < s.HNo(); i++ {
+			vAssert("stored-are-a-prefix", a.Hdrs[i].Name == s.Hdrs[i].Name && a.Hdrs[i].Val == s.Hdrs[i].Val)
+		}
+		vReach("list")
+	}
+	vReach("end")
+}
+
 func H_C13_params(n, pcap int) {
 	buf := vBytes(n)
 	var s, a URIParamsLst
